@@ -205,6 +205,17 @@ def sampler_scenarios(seed, per_group, faults="none"):
                 if sc["script"] and sc["script"][-1]["op"] == "abort" and len(sc["script"]) >= 7:
                     pass
             out.append(sc)
+    if faults == "failures":
+        # an unrecoverable error at every evaluation of a short warm-up that crosses the first transformation
+        # change (so that it also lands in the re-run of the step-size search): the run must report it
+        for k in range(3, 3 + 12 * per_group):
+            st = {"num_tune": 6, "num_draws": 2, "num_chains": 2, "seed": 1000 + (seed % 1000), "maxdepth": 3,
+                  "adapt_options": {"early_mass_matrix_switch_freq": 3, "mass_matrix_switch_freq": 4,
+                                    "mass_matrix_update_freq": 1}}
+            out.append({"preset": "diag_nuts", "dim": 2, "density": DENS[1], "settings": st, "num_cores": 2,
+                        "sched_seed": rnd.randrange(1 << 30), "sched_amp_us": 50, "group": [2, 2, 8],
+                        "faults": [[k % 2, k, "FatalErr"]], "fail_kind": "fatal_sweep",
+                        "script": [{"op": "wait", "ms": 4000}] * 6 + [{"op": "abort"}]})
     return out
 
 
